@@ -12,7 +12,7 @@ CONSTANTS FAMILY, OUT
 
 Kids1 == <<X, YZ, TrStk("AND", <<X, Y>>), KV>>
 Kids2 == <<LT, U, KGeS>>
-Kids3 == <<E, N, TrStk("NOT", <<X>>), UU, WS>>
+Kids3 == <<E, N, TrStk("NOT", <<X>>), UU, WS, F32>>
 
 \* F1: every option combination on the root, fixed children
 FamRoot == UNION {Configs(k, kids) : k \in Kinds4, kids \in {Kids1, Kids2, Kids3}}
